@@ -71,8 +71,9 @@ def judge_addr(case) -> Verdict:
 
 @st.composite
 def addr_pair_st(draw, tier):
-    a = draw(G.addr_st(kmax=4, groups=True))
-    b = draw(G.mutate_addr(a, kmax=4, groups=True))
+    kmax = draw(st.sampled_from([4, 4, 4, 4, 7]))  # 2^7 x 2^7 prefixes: large expansions, still cheap
+    a = draw(G.addr_st(kmax=kmax, groups=True))
+    b = draw(G.mutate_addr(a, kmax=kmax, groups=True))
     if draw(st.integers(0, 2)) == 0:
         a, b = b, a
     return {"a": a, "b": b, "pa": draw(st.sampled_from(["ios", "nxos"])), "pb": draw(st.sampled_from(["ios", "nxos"]))}
